@@ -49,7 +49,7 @@ var checks = map[string]checkCfg{
 		Real:   []string{"builder.FromPcap / builder.New", "snapshots save/load", "index writer/reader", "libpcap"},
 		Stub:   []string{"network path and capture tap (netsim)", "wall clock", "map order", "snapshot interval knob"},
 		Assume: []string{"the one-shot import is the reference (tied to ground truth by C05)"}},
-	"C06": {Engine: "mgrsim", QuickS: 40, ThoroughS: 1200, Level: "exploration",
+	"C06": {Engine: "mgrsim", QuickS: 60, ThoroughS: 1200, Level: "exploration",
 		Rule: "one case = one seeded plan (capture set, 4-20 tag/mark/converter API calls, import batches, view operations) under one seeded schedule of api/body/post/tick steps; after every step the incremental tag state and a freshly opened view (shown tags, tag searches) are compared with a from-scratch evaluation of every definition. distinct = distinct schedule signature (step labels with api ops abstracted to their kind); non-trivial = an import, API call or merge was applied while another job was in flight",
 		Real: realCommon, Stub: stubCommon,
 		Assume: []string{"one quiescent index.SearchStreams evaluation of a definition is the reference (C02/C04 are not claimed)", "converter-reading definitions are not judged while a converter job is between body and completion"}},
